@@ -1219,33 +1219,100 @@ def endpoint_ift_goals(E, fam, theta, x, d, b0, b1):
     ]
 
 
-def o5_concrete(vals, fam, fam_f, text, goals, snap_end=False):
-    """jax.grad through the REAL find_root on the family's formula with the uninterpreted functions replaced by Hermite
-    interpolants of the model. snap_end: make the end-point root of the model an exact root in floating point (the value
-    k(theta), resp. m(b), is set to minus the rounded other term, a perturbation of the model by rounding only)"""
-    S = _S()
+def _slope_at(nodes, x):
+    for x_, y_, d_ in nodes:
+        if x_ == x:
+            return d_
+    return None
+
+
+def o5_realise(vals, fam, endpoint):
+    """concrete g, h, k (resp. u, m) realising the decisive quantities of the solver model on a problem the REAL solver
+    returns a root of: the model's values/slopes of the uninterpreted functions at theta, at the returned root r and at the
+    clipped initial guess are kept (so f_x(r), f_x(guess), f_theta(r) are the model's), and
+      * r is made an exact root in floating point: k(theta) := -fl(g(r) h(theta)), resp. m(r) := -u(r theta)
+        (end-point queries: r = the end the model has the root at; interior queries: r = the model's loop result; there the
+        model's exit carry is a contract value, so f(r) = 0 is imposed here and NOT taken from the model);
+      * interior queries only: the VALUES at the other nodes (bracket ends, clipped guess; slopes untouched) are replaced
+        by -+M on the two sides of r, so that r is the only sign change of the interpolant on the bracket.
+    Returns (fns, description)."""
     th = float(vals['theta'])
     b0, b1, x0 = float(vals['b0']), float(vals['b1']), float(vals['x0'])
     names = {'separable': ('g', 'h', 'k'), 'composite': ('u', 'm')}[fam]
     nodes = {n: triples_from_model(vals, name=n) for n in names}
     fns = {n: hermite(nodes[n]) for n in names}
-    snapped = None
-    if snap_end:
-        def fval(b):
-            if fam == 'separable':
-                return float(fns['g'](b)) * float(fns['h'](th)), float(fns['k'](th))
-            return float(fns['u'](b * th)), float(fns['m'](b))
+    x0c = min(b1, max(b0, x0))          # np.clip(x0, b0, b1) as the code computes it
+
+    def other(x):       # the part of f(x, theta) that is not the adjustable constant: g(x)h(theta), resp. u(x theta)
+        if fam == 'separable':
+            return float(fns['g'](x)) * float(fns['h'](th))
+        return float(fns['u'](x * th))
+
+    def rest(x):
+        return float(fns['k'](th)) if fam == 'separable' else float(fns['m'](x))
+    r = None
+    if endpoint:
         cand = []
         for b in (b1, b0):
-            a_, c_ = fval(b)
-            cand.append((abs(a_ + c_) / (1e-300 + abs(a_) + abs(c_) + 1e-30), b, a_))
+            a_, c_ = other(b), rest(b)
+            cand.append((abs(a_ + c_) / (abs(a_) + abs(c_) + 1e-30), b))
         cand.sort(key=lambda t: t[0])
-        if cand[0][0] <= 1e-9 or (cand[0][0] < 1e-6):
-            _, b, a_ = cand[0]
-            nm, at = ('k', th) if fam == 'separable' else ('m', b)
-            nodes[nm] = [(x_, (-a_ if x_ == at else y_), d_) for x_, y_, d_ in nodes[nm]]
-            fns[nm] = hermite(nodes[nm])
-            snapped = dict(function=nm, at=at, value=-a_, end=b)
+        if cand[0][0] < 1e-6:
+            r = cand[0][1]
+    elif not vals.get('E_root_nan') and math.isfinite(float(vals['E_root'])) and int(vals['maxit']) >= 1:
+        r = float(vals['E_root'])
+    desc = dict(root_realised=r, clipped_guess=x0c)
+    if r is None:
+        return fns, desc
+    adj = 'k' if fam == 'separable' else 'm'
+    at = th if fam == 'separable' else r
+    zero_val = -other(r)
+    nodes[adj] = [(x_, (zero_val if x_ == at else y_), d_) for x_, y_, d_ in nodes[adj]]
+    if not any(x_ == at for x_, _, _ in nodes[adj]):
+        nodes[adj].append((at, zero_val, None))
+    fns[adj] = hermite(nodes[adj])
+    desc['exact_root'] = dict(function=adj, at=at, value=zero_val)
+    if not endpoint and min(b0, b1) < r < max(b0, b1):
+        # slope of f in x at r and at the guess, from the model
+        if fam == 'separable':
+            hth = float(fns['h'](th))
+            sl = lambda x: (_slope_at(nodes['g'], x) or 0.0) * hth
+            umax = 0.0
+        else:
+            sl = lambda x: th * (_slope_at(nodes['u'], x * th) or 0.0) + (_slope_at(nodes['m'], x) or 0.0)
+            umax = max([abs(y_) for _, y_, _ in fns['u'].nodes] + [abs(d_ * th) * (abs(b1 - b0) + 1.0) for _, _, d_ in fns['u'].nodes])
+        sgn = 1.0 if sl(r) >= 0 else -1.0
+        span = abs(b1 - b0) + abs(x0c - r) + 1.0
+        M = 10.0 * (1.0 + abs(sl(r)) + abs(sl(x0c))) * span + 10.0 * umax
+        others = sorted({x for x in (b0, b1, x0c) if x != r})
+        tgt = {x: sgn * (1.0 if x > r else -1.0) * M for x in others}
+        fn_name = 'g' if fam == 'separable' else 'm'
+        keep = {r: (float(fns[fn_name](r)), _slope_at(nodes[fn_name], r))}
+        new = [(r,) + keep[r]]
+        for x in others:
+            if fam == 'separable':
+                v = (tgt[x] - float(fns['k'](th))) / hth
+            else:
+                v = tgt[x] - float(fns['u'](x * th))
+            new.append((x, v, _slope_at(nodes[fn_name], x) if x == x0c else None))
+        nodes[fn_name] = new
+        fns[fn_name] = hermite(new)
+        desc['steered_values'] = dict(function=fn_name, M=M, nodes=new)
+    return fns, desc
+
+
+def o5_concrete(vals, fam, fam_f, text, goals, endpoint=False):
+    """jax.grad through the REAL find_root, called with the real settings constructor on the MODEL's x_tol, r_tol (and
+    max_iters), on the family's formula with the uninterpreted functions replaced by the interpolants of o5_realise"""
+    S = _S()
+    th = float(vals['theta'])
+    b0, b1, x0 = float(vals['b0']), float(vals['b1']), float(vals['x0'])
+    xtol, rtol, maxit = float(vals['xtol']), float(vals['rtol']), int(vals['maxit'])
+    names = {'separable': ('g', 'h', 'k'), 'composite': ('u', 'm')}[fam]
+    fns, desc = o5_realise(vals, fam, endpoint)
+    # end-point roots converge before the loop: the model's cap is used as is. Interior: the derivative rule does not read
+    # max_iters; the cap is raised (never lowered) so that the forward solve returns a root for the model's tolerances
+    cap = maxit if endpoint or desc.get('root_realised') in (b0, b1) else max(maxit, 200)
 
     def conc_uf(x, name='f', order=0):
         assert order == 0
@@ -1254,7 +1321,7 @@ def o5_concrete(vals, fam, fam_f, text, goals, snap_end=False):
     jx.uf = conc_uf
     try:
         f2 = lambda x, t: fam_f(x, t)
-        sett = S.Settings(200, 1e-13, 0.0)
+        sett = S.get_settings(max_iters=cap, x_tol=xtol, r_tol=rtol)
 
         def root_of(t):
             return S.find_root(lambda x: f2(x, t), x0, jnp.array([b0, b1]), sett)[0]
@@ -1266,13 +1333,17 @@ def o5_concrete(vals, fam, fam_f, text, goals, snap_end=False):
             cfn[(n, 1)] = (lambda n: lambda v: float(jax.grad(fns[n])(jnp.float64(v))))(n)
         Ec = ConEnv(cfn)
         cn = goals(Ec, th, xr, dr, b0, b1)
-        fx = float(jax.grad(f2, 0)(jnp.float64(xr), jnp.float64(th))) if math.isfinite(xr) else float('nan')
-        ft = float(jax.grad(f2, 1)(jnp.float64(xr), jnp.float64(th))) if math.isfinite(xr) else float('nan')
+        fin = math.isfinite(xr)
+        fx = float(jax.grad(f2, 0)(jnp.float64(xr), jnp.float64(th))) if fin else float('nan')
+        ft = float(jax.grad(f2, 1)(jnp.float64(xr), jnp.float64(th))) if fin else float('nan')
+        x0c = desc['clipped_guess']
+        fx_guess = float(jax.grad(f2, 0)(jnp.float64(x0c), jnp.float64(th)))
     finally:
         jx.uf = real_uf
-    return True, cn, True, dict(theta=th, x0=x0, bracket=[b0, b1], settings='max_iters=200, x_tol=1e-13, r_tol=0', real_root=xr, real_grad=dr,
-                                f_x=fx, f_theta=ft, ift=(-ft / fx if fx else None), nodes={n: fns[n].nodes for n in names}, snapped=snapped,
-                                how='jax.grad through the real find_root on %s with Hermite interpolants of the model' % text)
+    return True, cn, True, dict(theta=th, x0=x0, bracket=[b0, b1], settings=dict(max_iters=cap, x_tol=xtol, r_tol=rtol, model_max_iters=maxit),
+                                real_root=xr, real_grad=dr, f_x_at_root=fx, f_theta_at_root=ft, f_x_at_clipped_guess=fx_guess, ift=(-ft / fx if fx else None),
+                                nodes={n: fns[n].nodes for n in names}, realisation=desc,
+                                how='jax.grad through the real find_root(f, x0, bracket, get_settings(max_iters, x_tol, r_tol)) on %s with interpolants realising the model' % text)
 
 
 @obligation(P, 'O5.derivative', cap=200)
@@ -1285,6 +1356,9 @@ def o5(h):
     h.bounds('O5: two families of functions of (x, theta) built from uninterpreted C1 functions: g(x)h(theta)+k(theta) and u(x theta)+m(x); all values and slopes are free reals; f_x != 0 at the returned point',
              'O5 interior queries: bracket ordered with a strict sign change of f(., theta) (only so that a counterexample can be replayed on a run that returns a root); the loop result is any point of the bracket (invariant conjunct iterate_in_original_bracket) or NaN',
              'O5 end-point queries: f(b, theta) == 0 exactly at an end b of the bracket (either end, either bracket order, any guess and settings); no loop contract is involved (the loop does not run)')
+    h.bounds('O5: x_tol, r_tol, max_iters are symbolic inputs of the traced grad(find_root) (a derivative rule that reads the settings is encoded as such); a counterexample is replayed by calling the real '
+             'find_root with get_settings(max_iters, x_tol, r_tol) built from the model\'s values (interior roots: the cap is raised to >= 200, never lowered, so that the forward solve returns a root) on interpolants '
+             'that keep the model\'s values and slopes of the uninterpreted functions at theta, at the returned root and at the clipped initial guess')
     h.outside('O5: second and higher derivatives; vector-valued parameters (theta is one real; linearity of the rule in the direction is JAX\'s)')
     for fam, (fam_f, text) in FAMILIES.items():
         fn = _grad_fn(fam_f)
@@ -1306,7 +1380,7 @@ def o5(h):
                   lambda vals, fam=fam, fam_f=fam_f, text=text: o5_concrete(vals, fam, fam_f, text, lambda Ec, th, xr, dr, b0_, b1_: ift_goals(Ec, fam, th, xr, dr)[1]),
                   order=('nlsat', 'core'))
         prove_all(h, fam + '.', side, named_end, inputs,
-                  lambda vals, fam=fam, fam_f=fam_f, text=text: o5_concrete(vals, fam, fam_f, text, lambda Ec, th, xr, dr, b0_, b1_: endpoint_ift_goals(Ec, fam, th, xr, dr, b0_, b1_), snap_end=True),
+                  lambda vals, fam=fam, fam_f=fam_f, text=text: o5_concrete(vals, fam, fam_f, text, lambda Ec, th, xr, dr, b0_, b1_: endpoint_ift_goals(Ec, fam, th, xr, dr, b0_, b1_), endpoint=True),
                   order=('nlsat', 'core'))
 
 
